@@ -362,6 +362,13 @@ pub fn run(tier: Tier, seed: u64, findings: &Findings) -> i32 {
         src.push_str("/>");
         explicit.push(Case { group: Group::default(), style: 0, mutations: vec![], mangling: ci % 2 == 1, d0: envs[0].clone(), steps: vec![], raw_entry: Some(src), envs: envs.clone() });
     }
+    // reference spellings whose suffix handling must survive a print / re-parse round
+    for tag in ["import", "include", "wxs"] {
+        for src in ["a", "a.wxml", "a.wxs", "a.wxml.wxml", "a.wxs.wxs", "d/a.wxml.wxs", "a.wxs.wxml", "a.wxml.wxs.wxml", ".wxml", "a.wxml/b", "a.js"] {
+            let raw = if tag == "wxs" { format!("<wxs module=\"m\" src=\"{}\"/><v a=\"{{{{m.k}}}}\"/>", src) } else { format!("<v/><{} src=\"{}\"/>", tag, src) };
+            explicit.push(Case { group: Group::default(), style: 0, mutations: vec![], mangling: false, d0: envs[0].clone(), steps: vec![], raw_entry: Some(raw), envs: vec![] });
+        }
+    }
     report.extra.insert("operator_texts".into(), json!(texts.len()));
     report.merge(engine::run_explicit(&check, &cfg, explicit, 2, 16, findings));
     let cases = tier.pick(20_000, 300_000);
